@@ -163,13 +163,26 @@ def search_inactive_rows(chk, r, n):
         ("FFNS", 4, "F2_top", "CC", "neutrino", 1, 0.01, 3e5),
         ("FFNS", 3, "F2_bottom", "EM", "electron", 2, 0.05, 300.0),
         ("FFNS", 3, "F2_top", "EM", "electron", 2, 0.001, 3e5),
+        # variable-flavour scheme: a heavy-flavour observable below its own matching scale has no
+        # active quark to couple to (nf counts the thresholds below Q2; default masses 1.51, 4.92, 172.5)
+        ("ZM-VFNS", 3, "F2_charm", "EM", "electron", 1, 0.1, 1.5),
+        ("ZM-VFNS", 4, "FL_bottom", "NC", "electron", 1, 0.1, 10.0),
+        ("ZM-VFNS", 3, "F2_bottom", "EM", "positron", 0, 0.1, 2.0),
+        ("ZM-VFNS", 5, "F2_top", "NC", "electron", 1, 0.05, 300.0),
+        # FONLL: only the NfFF+1-th quark is massive, the ones above it never contribute
+        ("FONLL-FFNS", 4, "F2_top", "NC", "electron", 1, 0.05, 300.0),
+        ("FONLL-FFN0", 4, "F2_top", "EM", "electron", 1, 0.05, 300.0),
     ]
     B = realrun.BASIS
     for i in range(n):
-        fns, nfff, name, proc, proj, pto, x, Q2 = plans[i % len(plans)]
-        tagged = {"bottom": 5, "top": 6}[name.split("_")[1]]
+        fns, nfff, name, proc, proj, pto, x, Q2 = plans[(i * 5) % len(plans)] if n < len(plans) else plans[i % len(plans)]
+        tagged = {"charm": 4, "bottom": 5, "top": 6}[name.split("_")[1]]
+        if fns == "ZM-VFNS" or fns.startswith("FONLL"):
+            # here `nfff` is the number of active quarks at this Q2 and the tagged quark is *not* massive:
+            # no quark above nf may appear at all (for FONLL the massive quark NfFF+1 is not the tagged one)
+            tagged = nfff + 1 if fns.startswith("FONLL") else 0
         try:
-            res = realrun.run(cards.theory(PTO=pto, FNS=fns, NfFF=nfff, IC=0), cards.obs({name: [dict(x=x, Q2=Q2)]}, prDIS=proc, ProjectileDIS=proj, interpolation_xgrid=cards.default_grid(8, 1e-3)))[name][0]
+            res = realrun.run(cards.theory(PTO=pto, FNS=fns, NfFF=nfff if fns != "ZM-VFNS" else 4, IC=0), cards.obs({name: [dict(x=x, Q2=Q2)]}, prDIS=proc, ProjectileDIS=proj, interpolation_xgrid=cards.default_grid(8, 1e-3)))[name][0]
         except Exception as e:
             chk.extra.setdefault("search_exceptions", {})
             k = f"inactive-rows:{type(e).__name__}:{str(e)[:80]}"
@@ -180,6 +193,36 @@ def search_inactive_rows(chk, r, n):
         scale = max(float(np.abs(np.asarray(v)).max()) for v, _ in res.orders.values())
         sample = dict(obs=name, FNS=fns, NfFF=nfff, process=proc, PTO=pto, x=x, Q2=Q2, inactive_quarks=[q_ for q_ in range(nfff + 1, 7) if q_ != tagged], max_abs_in_their_rows=worst, scale=scale)
         chk.search_case("inactive_flavour_rows_zero", worst == 0.0, what=f"{fns} NfFF={nfff} {name} {proc} PTO={pto}: quarks {sample['inactive_quarks']} are not active but their operator rows reach {worst:.3g} (operator scale {scale:.3g})", data=sample, sample=sample if i == 0 else None, nontrivial=scale > 0)
+
+
+def search_reused_card(chk, r, n):
+    """the thresholds a run uses are those of the card it is given: running a fixed-flavour scheme
+    and then the variable-flavour scheme *from the same card object* gives what a fresh card gives
+    (nf follows the masses and ratios the user wrote, not what an earlier run left behind)"""
+    import copy
+
+    import yadism
+
+    plans = [("FFNS", 3), ("FONLL-FFNS", 4), ("FFN0", 4), ("FFNS", 5)]
+    for i in range(n):
+        first, nfff = plans[i % len(plans)]
+        name = ["F2_total", "FL_total"][i % 2]
+        pts = [dict(x=0.1, Q2=q_) for q_ in (1.5, 10.0, 50.0)]
+        o = cards.obs({name: pts}, prDIS="EM", interpolation_xgrid=cards.default_grid(8, 1e-2))
+        card = cards.theory(PTO=1, FNS=first, NfFF=nfff)
+        try:
+            yadism.run_yadism(card, copy.deepcopy(o))
+            card["FNS"] = "ZM-VFNS"
+            second = yadism.run_yadism(card, copy.deepcopy(o))[name]
+            fresh = yadism.run_yadism(cards.theory(PTO=1, FNS="ZM-VFNS", NfFF=nfff), copy.deepcopy(o))[name]
+        except Exception as e:
+            chk.extra.setdefault("search_exceptions", {})
+            k = f"reused-card:{type(e).__name__}:{str(e)[:80]}"
+            chk.extra["search_exceptions"][k] = chk.extra["search_exceptions"].get(k, 0) + 1
+            continue
+        bad = [p["Q2"] for p, a, b in zip(pts, second, fresh) if not realrun.identical(a, b)]
+        sample = dict(obs=name, first_scheme=first, NfFF=nfff, then="ZM-VFNS", Q2_with_differences=bad, thresholds_in_card_after={k: card.get(k) for k in ("kcThr", "kbThr", "ktThr")})
+        chk.search_case("scheme_after_scheme_same_card", not bad, what=f"{name}: ZM-VFNS run from a card first used for {first} NfFF={nfff} differs from the fresh-card run at Q2={bad}", data=sample, sample=sample if i == 0 else None, nontrivial=True)
 
 
 def search_point_nf(chk, r, n):
@@ -220,7 +263,8 @@ def run(tier):
     corr_sv.run_sv(chk, 200 if thorough else 30, r, stream="compute_local_nf")
     search(chk, r, 60 if thorough else 6)
     search_heavy_beta(chk, r, 8 if thorough else 3)
-    search_inactive_rows(chk, r, 12 if thorough else 4)
+    search_inactive_rows(chk, r, 24 if thorough else 6)
+    search_reused_card(chk, r, 4 if thorough else 2)
     search_point_nf(chk, r, 6 if thorough else 2)
     chk.assumptions += [
         "thresholds are compared as exact rationals of the doubles the Runner built (m^2*k^2 in IEEE arithmetic); the formation of the product itself is compared to 2 ulp",
